@@ -2,11 +2,13 @@
    Tensor/ProofsBatchGrad.v (example in Tensor/ProofsBatchGradEx.v).
      dexpr                     the differentiable fragment of the expression language xexpr of
                                Tensor/ProofsBatchLaw.v over a commutative ring R: DLeaf k (entry k of the
-                               environment env: an input or a parameter), DConst, DUn u e, DBin o e1 e2 with
+                               environment env: an input or a parameter), DConst, DUn u e, DBin o e1 e2,
+                               DConcat dim es with
                                  u: negate, x+k, x-k, k-x, x*k, slice, pick, broadcast, flip, transpose,
                                     permute_dims, sum along an axis, reshape / flatten
                                  o: add, subtract, multiply (B-vs-1 minibatch broadcasting), matmul, conv2d,
                                     x+k, x-k, k-x, x*k with a scalar-shaped tensor k
+                                 concat of any number of operands
      erase env e               the program as an xexpr (forward = xeval through the kernel index programs)
      dwf B env e               accepted with minibatch size B (shape rules of core/shape_ops.cc)
      dback / grad env e gy     the reverse sweep: every operator adds to its operands the increments its
@@ -18,8 +20,7 @@
                                per-sample program (a per-sample pick index list reduced to its b-th entry)
      vsum l n                  the elementwise sum of the vectors l (length n)
    Not covered by dexpr: the elementwise functions with analytic derivatives, divide / pow, max / min /
-   logsumexp / max_pool2d (no polynomial tangent over a ring; not in core_family), and concat (per-kernel
-   folding only: Properties_C03_program.v GRAD_FOLD, concat_bw of Tensor/GraphInst.v). *)
+   logsumexp / max_pool2d (no polynomial tangent over a ring; not in core_family). *)
 From Coq Require Import List NArith ZArith Bool Arith Lia Ring.
 From PV Require Import Graph.OpFamily Tensor.Kernels Tensor.Index Tensor.KernelProofs Tensor.ProofsBilinear
   Tensor.ProofsGather Tensor.ProofsPerm Tensor.ProofsBatchSample Tensor.ProofsBatchLaw Tensor.AdjCore
@@ -193,3 +194,26 @@ Example C03_gradient_nonvacuous_applied :
     (map (fun b : nat => nth k (bg_grad (env_s b bg_env) (dsample b bg_prog) (block b 1 bg_gy)) [])
        (range 3)) (tsize (fst (nth k bg_env (dleaf 0%Z)))).
 Proof. exact bg_applied. Qed.
+
+(* ---- a second program over the same environment with the n-ary concat, slice and a constant factor:
+   y = sum_axis0(slice_{axis 0, [1,3)}(concat([w, x * w, 3 * w], 0))): accepted, evaluated ... ---- *)
+Example C03_gradient_nonvacuous2_hyps :
+  dwf 0%Z Z.add Z.mul Z.sub Z.opp 3 bg_env bg_prog2 /\
+  bg_eval bg_env bg_prog2 = ({| tdims := [1; 1]; tbatch := 3 |}, [30%Z; 50%Z; 70%Z]).
+Proof. exact bg2_hyps. Qed.
+
+(* ... grad w = [531; 111] = [1; 1] + [30; 10] + [500; 100] ... *)
+Example C03_gradient_nonvacuous2_values :
+  bg_grad bg_env bg_prog2 bg_gy = [[10%Z; 0%Z; 100%Z; 0%Z; 1000%Z; 0%Z]; [531%Z; 111%Z]; [0%Z; 0%Z; 0%Z; 0%Z]] /\
+  map (fun b : nat => bg_grad (env_s b bg_env) (dsample b bg_prog2) (block b 1 bg_gy)) [0; 1; 2] =
+  [[[10%Z; 0%Z]; [1%Z; 1%Z]; [0%Z; 0%Z; 0%Z; 0%Z]]; [[100%Z; 0%Z]; [30%Z; 10%Z]; [0%Z; 0%Z; 0%Z; 0%Z]];
+   [[1000%Z; 0%Z]; [500%Z; 100%Z]; [0%Z; 0%Z; 0%Z; 0%Z]]] /\
+  vsum 0%Z Z.add [[1%Z; 1%Z]; [30%Z; 10%Z]; [500%Z; 100%Z]] 2 = [531%Z; 111%Z].
+Proof. vm_compute. repeat split. Qed.
+
+(* ... as C03_grad_shared_is_sum says *)
+Example C03_gradient_nonvacuous2_applied :
+  nth 1 (bg_grad bg_env bg_prog2 bg_gy) [] =
+  vsum 0%Z Z.add
+    (map (fun b : nat => nth 1 (bg_grad (env_s b bg_env) (dsample b bg_prog2) (block b 1 bg_gy)) []) (range 3)) 2.
+Proof. exact bg2_applied. Qed.
